@@ -9,7 +9,7 @@ package types
 
 //@ define psHeaderEq(a PartSetHeader, b PartSetHeader) Bool = a.Total == b.Total && bytesEq(a.Hash, b.Hash)
 //@ define blockIDEq(a BlockID, b BlockID) Bool = bytesEq(a.Hash, b.Hash) && psHeaderEq(a.PartsHeader, b.PartsHeader)
-//@ define keyOf(b BlockID) String = string(b.Hash) + string(wireBytes(box(b.PartsHeader)))
+//@ define keyOf(b BlockID) String = string(wireBytes(box(b.Hash))) + string(wireBytes(box(b.PartsHeader)))
 //@ define quorum(T Int) Int = T*2/3 + 1
 
 //@ spec sbVote(chainID String, height Int, round Int, typ Int, id BlockID) Bytes
@@ -197,6 +197,15 @@ package types
 //@   ensures  ok ==> vote != nil
 //@   ensures  !ok ==> vote == nil
 
+// go-wire length-prefixes byte slices and encodes a parts header as (varint, length-prefixed bytes): the encoding of a byte slice
+// followed by that of a parts header determines both (assumption about the reflective encoder, which is outside the subset)
+//@ axiom wireKeyParts: forall(a, BlockID, forall(b, BlockID, trigger(keyOf(a), keyOf(b)), bytesEq(keyOf(a), keyOf(b)) ==> blockIDEq(a, b)))
+// (conversely the key is a function of the id's content)
+//@ axiom wireKeyContent: forall(a, BlockID, forall(b, BlockID, trigger(keyOf(a), keyOf(b)), blockIDEq(a, b) ==> keyOf(a) == keyOf(b)))
+//@ lemma keyInjective: forall(a, BlockID, forall(b, BlockID, bytesEq(keyOf(a), keyOf(b)) ==> bytesEq(a.Hash, b.Hash) && a.PartsHeader.Total == b.PartsHeader.Total && bytesEq(a.PartsHeader.Hash, b.PartsHeader.Hash)))
+//@   props C15 C01
+// (the encoding of a byte slice depends on its content only)
+//@ axiom wireBytesContent: forall(x, Bytes, forall(y, Bytes, trigger(wireBytes(box(x)), wireBytes(box(y))), bytesEq(x, y) ==> wireBytes(box(x)) == wireBytes(box(y))))
 //@ axiom wirePSH: forall(a, PartSetHeader, forall(b, PartSetHeader, psHeaderEq(a, b) ==> wireBytes(box(a)) == wireBytes(box(b))))
 
 // invariant linking the canonical votes with the per-block tallies once a majority has been recorded
